@@ -2,7 +2,7 @@
 from vlib import core
 from vlib.pyvc.unit import contract_unit
 from props._common import pyvc_units, frame_unit, bounded_unit
-from contracts import collections as cc, system, utils
+from contracts import collections as cc, system, utils, colls2
 
 LEVEL = 'proof'
 TECHNIQUE = ('pyvc: functional postconditions (the executable model, '
@@ -45,6 +45,8 @@ def units(ctx):
            for c in cc.partition_contracts()]
     us += [contract_unit(c, world_setup=cc.setup_merge)
            for c in cc.merge_contracts()]
+    us += [contract_unit(c, world_setup=colls2.setup_byint)
+           for c in colls2.contracts()]
     # functions outside the deductive reach (ordering end-to-end, grouping,
     # join, distinct, memorize interleavings, ...): bounded model comparison
     us.append(bounded_unit(
